@@ -91,6 +91,7 @@ class Engine(object):
     def __init__(self, repo, cfg):
         self.repo = repo
         self.cfg = cfg
+        self.all_obligations = []
         self.solver_checks = 0
         self.solver_time = 0.0
         self.n_paths = 0
@@ -428,7 +429,9 @@ class Engine(object):
             formula = z3.BoolVal(True)
         elif formula is False:
             formula = z3.BoolVal(False)
-        st.oblig.append(Obligation(name, kind, formula, list(st.pc), list(st.decisions), info, props))
+        # obligations are collected per unit, not per surviving path: a path that becomes infeasible after a
+        # failed obligation (the obligation is assumed afterwards) must not take the obligation with it
+        self.all_obligations.append(Obligation(name, kind, formula, list(st.pc), list(st.decisions), info, props))
         st.assume(formula)
 
     # =========================================================================================
@@ -596,9 +599,12 @@ class Engine(object):
             held_ids.append((owner, lf, kind))
         old_f = tuple(st.arr(n) for n in FUT_ARRAYS)
         old = dict(st.heap)
+        pa = getattr(cfg, "protected_all", {})
         for name in list(st.heap.keys()):
             if name in cfg.stable:
                 continue
+            if name in pa and any(lf == pa[name] for (_o, lf, _k) in held_ids):
+                continue        # field protected by this lock on every object of the region (e.g. RetryJob.stop_retry)
             sort = SPECIAL.get(name, None)
             a = old[name]
             new = fresh("H_" + name.strip("$"), a.sort())
@@ -1193,6 +1199,10 @@ class Engine(object):
                     yield r
                 return
             raise Unsupported("call of instance of %s" % ty[1])
+        if ty == "weakref" or (isinstance(ty, tuple) and ty[0] == "weakref"):
+            for r in self.b.call_method(self, st, fr, fn, "weakref.__call__", args, kwargs, star, starkw, node):
+                yield r
+            return
         h = self.cfg.opaque_modes.get(ty)
         if h is not None:
             for r in h(self, st, fr, fn, args, kwargs, star, starkw, node):
